@@ -124,8 +124,7 @@ def stats_members(ctx):
                 rets = [r for r in t.nodes_in(m, ast.Return) if r.value is not None]
                 if m.name != "__init__" and len(rets) == 1 and norm(rets[0].value) == "self." + field:
                     out.append(m.name)
-        need(len(out) == 1, "TracepointExecutionStats: accessor of %s not found" % field)
-        return out[0]
+        return out[0] if len(out) == 1 else None
     return {"fire": fire, "cnt_field": cnt, "last_field": last, "cnt": accessor(cnt), "last": accessor(last)}
 
 def _type_mentions(ctx, tys, classes, deep=True, depth=0):
@@ -340,6 +339,13 @@ def run(ctx: Ctx, tier: str) -> Result:
     ts = fi.params[1]
     FC = term(ctx, fi, "self.fire_count")
     SM = stats_members(ctx)
+    for what_, key_, dflt_ in (("counter", "cnt", "fire_count"), ("last-fire time", "last", "last_fire")):
+        if SM[key_] is None:
+            # what the advancing method writes is read by no accessor: the limiter reads another field, which stays as it was made
+            res.fail(Finding("C04.UNITS", SM["fire"].qname, "self.%s" % SM[key_ + "_field"], SM["fire"].loc(), "%s() stores the %s in `self.%s`, which no accessor of the statistics hands out: "
+                             "what can_trigger reads never changes (the %s limit is not applied)" % (SM["fire"].name, what_, SM[key_ + "_field"], "fire_period" if key_ == "last" else "fire_count")))
+            SM[key_] = dflt_
+            need(p.functions.get(STATS + "." + dflt_) is not None, "TracepointExecutionStats: accessor %s not found" % dflt_)
     FIRED = term(ctx, fi, "self.__stats.%s" % SM["cnt"])
     LAST = term(ctx, fi, "self.__stats.%s" % SM["last"])
     winq = [k for k in tb.vars.truths if ".in_window(" in k]
